@@ -358,7 +358,7 @@ var tails = []struct{ text, kind string }{
 	{",", "operator"}, {"}", "operator"}, {"]", "operator"}, {":", "operator"}, {"+", "operator"}, {"/", "operator"},
 	{"@", "illegal"}, {"'", "illegal"}, {"\"unterminated", "illegal"}, {"; 2", "value-after-semi"}, {"\n3", "value-after-newline"},
 }
-var tailSeps = []string{" ", "\n", ";", "\n\n", " /*c*/ ", "\t", " // c\n", ";\n", "\r\n"}
+var tailSeps = []string{" ", "\n", ";", "\n\n", " /*c*/ ", "\t", " // c\n", ";\n", "\r\n", "//\n", " //\r\n", " /**/ ", "//\n//\n"}
 
 // doc renders v under random surface choices and adds its ops.
 func (g *gen) doc(v interface{}, plain bool) {
@@ -510,6 +510,25 @@ func main() {
 				g.add(fmt.Sprintf("doc %s %s string-verbatim-control", hx.Hex([]byte(d.text)), hx.Hex([]byte(d.want))))
 				rep.Count("verbatim-control-corner")
 			}
+		}
+		// comments with empty bodies, comments at every position, raw strings with carriage returns
+		for _, t := range []struct{ text, want string }{
+			{"{a:1, //\n b:2,}", `{"a":1,"b":2}`}, {"{a:1, //\r\n b:2,}", `{"a":1,"b":2}`}, {"[1, //\n2, //\n3]", `[1,2,3]`},
+			{"//\n1", `1`}, {"//\n//\n[//\n1, //\n]", `[1]`}, {"1 //", `1`}, {"1 //\n", `1`}, {"1//", `1`}, {"/**/1/**/", `1`},
+			{"{/**/a/**/:/**/1/**/,/**/}", `{"a":1}`}, {"[/**/1/**/,/**/2/**/]", `[1,2]`}, {"{ //\n a: //\n 1, //\n }", `{"a":1}`},
+			{"{a: [ //\n ], b: { //\n }, }", `{"a":[],"b":{}}`}, {"- //\n 5", `-5`}, {"a. //\n b", `["a","b"]`},
+			{"`a\rb`", `"ab"`}, {"`a\r\nb`", `"a\nb"`}, {"`\r`", `""`}, {"`a\nb`", `"a\nb"`}, {"{`k\r`: 1}", `{"k":1}`},
+			{"{`k\r\n`: `v\r\n`}", `{"k\n":"v\n"}`}, {"[`x\r\ny`, \"x\\r\\ny\"]", `["x\ny","x\r\ny"]`},
+		} {
+			g.add("tojson " + hx.Hex([]byte(t.text)))
+			g.add("unm " + hx.Hex([]byte(t.text)))
+			g.add(fmt.Sprintf("doc %s %s comment-or-raw-corner", hx.Hex([]byte(t.text)), hx.Hex([]byte(t.want))))
+			rep.Count("comment-raw-corner")
+		}
+		for _, t := range []string{"1 //\n2\n", "1 //\n2", "[1] //\r\n{}", "{} /**/ 3", "1 //\n//\n2", "`a` //\n`b`"} {
+			i := strings.Index(t, "/")
+			g.add(fmt.Sprintf("trail %s %s after-empty-comment", hx.Hex([]byte(t[:i])), hx.Hex([]byte(t[i:]))))
+			g.add("unm " + hx.Hex([]byte(t)))
 		}
 		// keywords are not identifiers: as bare keys they must be rejected, never converted
 		for _, t := range []struct{ text, want string }{
